@@ -151,6 +151,7 @@ struct HarnessInfo {
   std::vector<std::string> probeNames;     // probes that must be hit in a quick run
   std::vector<std::string> assumptions;
   bool ubsanGates = false;
+  int cpuLimitFactor = 1;                  // multiplies the per-run CPU-time limit (harnesses whose legal runs are bounded by their own evaluation caps but long)
 };
 
 class Harness {
